@@ -228,7 +228,8 @@ def run_threads(case):
 
     old_interval = sys.getswitchinterval()
     sys.setswitchinterval(1e-6)
-    threads = [threading.Thread(target=worker, args=(number,)) for number in range(n_threads)]
+    threads = [threading.Thread(target=worker, args=(number,), name='worker')
+               for number in range(n_threads)]
     try:
         for thread in threads:
             thread.start()
